@@ -452,9 +452,28 @@ func TestC20(t *testing.T) {
 					viol("stdout-file-exit:"+cmd, sprintf("%s: run error %v; stderr: %s", key, runErr, lastLines(eb.String(), 3)), rep)
 					continue
 				}
-				if outcome == "succeeds" && len(now) == len(old) {
-					viol("stdout-file-nothing-written:"+cmd, key+": the run succeeded but appended nothing", rep)
-					continue
+				if outcome == "succeeds" {
+					// ... and what was appended is exactly the image / the reference plaintext
+					var want []byte
+					vmask := func(int64, []byte) {}
+					switch cmd {
+					case "make-iso":
+						v, err := openVISO(filepath.Join(base, "src"), "/T", false)
+						must(err)
+						st, _ := v.Stat()
+						want, err = canonicalImage(v, 1<<20, st.Size()+1<<20)
+						v.Close()
+						must(err)
+						vmask = isoVarMask(false)
+					case "decrypt-redump":
+						want = refDecryptImage(buildEncImage(plain, pairs, c10Keys[2]), pairs, c10Keys[2], true)
+					case "decrypt-3k3y":
+						want = zeroMask(refDecryptImage(buildEncImage(plain, pairs, c10Keys[2]), pairs, c10Keys[2], true))
+					}
+					if d := maskedEqual(now[len(old):], want, vmask); d != "" {
+						viol("stdout-file-appended-differs:"+cmd, sprintf("%s: the bytes appended to the file are not the image (%d bytes appended, image has %d): %s", key, len(now)-len(old), len(want), d), rep)
+						continue
+					}
 				}
 				r.Outcome("stdout-file-kept:" + outcome)
 			}
